@@ -13,7 +13,9 @@ LineOf(j) == Line(j.m, j.t, j.r)
 ObjOf(j) == [k \in DOMAIN j.objs |-> [kind |-> j.objs[k].kind, name |-> j.objs[k].name,
                                       lines |-> {LineOf(j.objs[k].lines[i]) : i \in DOMAIN j.objs[k].lines}]]
 D0 == ObjOf(I0.dev)
-T  == ObjOf(I0.tgt)
+\* merge cases (C18) carry the expected effective target
+IsMerge == "parts" \in DOMAIN I0.tgt
+T  == IF IsMerge THEN ObjOf(I0.tgt.parts.merged) ELSE ObjOf(I0.tgt)
 
 TInit == /\ l = 1 /\ i0 = 1 /\ errl = 0 /\ nchg = 0 /\ touched = {} /\ Trace[1].ev = "Init"
          /\ obj = ObjOf(Trace[1].dev) /\ mode = NoMode /\ err = ""
@@ -62,9 +64,11 @@ Expand(o, k, d) ==
                     r |-> <<[kind |-> "entry", name |-> "",
                              lines |-> {[m |-> "", t |-> ln.t, r |-> [i \in DOMAIN ln.r |-> Expand(o, ln.r[i], d - 1)]] :
                                           ln \in {x \in o[k].lines : x.m = s}}]>>] : s \in {ln.m : ln \in o[k].lines}}]
+  \* the sequence number of a certificate map rule (and of the tunnel-group-map line that names it) is free:
+  \* rules are matched by their subject-name
   ELSE [kind |-> o[k].kind,
         name |-> IF o[k].kind \in FixedKinds THEN o[k].name ELSE "",
-        lines |-> {[m |-> ln.m, t |-> ln.t, r |-> [i \in DOMAIN ln.r |-> Expand(o, ln.r[i], d - 1)]] : ln \in o[k].lines}]
+        lines |-> {[m |-> IF o[k].kind \in {"cm", "tgm"} THEN "" ELSE ln.m, t |-> ln.t, r |-> [i \in DOMAIN ln.r |-> Expand(o, ln.r[i], d - 1)]] : ln \in o[k].lines}]
 Equivalent == {Expand(obj, k, 5) : k \in Anchors(obj)} = {Expand(T, k, 5) : k \in Anchors(T)}
 
 (* Frame (C07): objects not reachable from an anchor whose names lack the generated tag, *)
@@ -98,7 +102,8 @@ Mon ==
   /\ Chk(~(err # "" /\ errl = l), "C08", err, "")
   /\ Chk(LastEv.ev = "Init" \/ FrameViol = "", "C07", FrameViol, IF KF_SharedObjectEdit THEN "SharedObjectEdit" ELSE "")
   /\ Chk(LastEv.ev \in {"Resume", "Done"} => Post(LastEv.post), "HARNESS", "post state of replica differs", "")
-  /\ Chk(LastEv.ev = "Done" => Equivalent, "EQUIV", IF nchg = 0 THEN "unchanged" ELSE "final", KF_Resume)
+  /\ Chk(LastEv.ev = "Done" /\ IsMerge => Equivalent, "C18", "a setting of the raw file is lost, doubled or did not replace the Netspoc setting", "")
+  /\ Chk(LastEv.ev = "Done" /\ ~IsMerge => Equivalent, "EQUIV", IF nchg = 0 THEN "unchanged" ELSE "final", KF_Resume)
   /\ Chk(LastEv.ev = "Done" => LastEv.n2 = 0, "FIXPOINT", "second compare reports changes", KF_Resume)
 Accepted == TLCGet("stats").diameter = Len(Trace)
 =============================================================================
